@@ -99,8 +99,10 @@ func randomConn(r *hx.Rand, ccap int) string {
 				acts = append(acts, "fn"+forgedLen(r))
 			case x < 80:
 				acts = append(acts, fmt.Sprintf("st%d", r.Intn(2)))
-			default:
+			case x < 93:
 				acts = append(acts, "sl")
+			default:
+				acts = append(acts, "sn")
 			}
 		}
 		pre = strings.Join(acts, "+")
@@ -163,6 +165,17 @@ func main() {
 		hd(4, 4, honest(0), conn("-", 0, 0, both, both, "cf"), honest(0), honest(0))
 		// fallbacks: server cache lost, forged id, stale id from the other server, suite no longer enabled
 		hd(4, 4, honest(0), conn("sl", 0, 0, both, both, "ok"), honest(0))
+		// F65: the server's cache is replaced by a foreign implementation that answers a miss (nil, true):
+		// the offered session is refused like a miss — full handshake, no panic — and the new session is
+		// resumed through the same cache afterwards (a hit is a hit); with a forged id; with a damaged
+		// flight; under a requiring policy; small caches
+		hd(4, 4, honest(0), conn("sn", 0, 0, both, both, "ok"), honest(0), honest(0))
+		hd(4, 4, conn("fg+sn", 0, 0, both, both, "ok"), honest(0))
+		hd(4, 4, conn("fn7+sn", 0, 0, both, both, "ok"), honest(0))
+		hd(4, 4, honest(0), conn("sn", 0, 0, both, both, "sf"), honest(0), honest(0))
+		hd(1, 1, honest(0), conn("sn", 0, 0, cbc, both, "ok"), honest(0))
+		hd(4, 4, auth(honest(0), 4, "c"), auth(conn("sn", 0, 0, both, both, "ok"), 4, "c"), auth(honest(0), 4, "c"))
+		hd(4, 4, honest(0), honest(1), conn("sn", 0, 0, both, both, "ok"), honest(1), honest(0))
 		hd(4, 4, conn("fg", 0, 0, both, both, "ok"), honest(0))
 		hd(4, 4, conn("fn", 0, 0, both, both, "ok"), honest(0))
 		hd(4, 4, conn("fg", 0, 0, both, both, "sf"), honest(0))
